@@ -19,7 +19,7 @@ from .core import Repo, CLASSES, FUNCTION, AnalysisError, src
 from .ordertype import OrderType
 from .absint import (Interp, Int, Const, NONE, TRUE, FALSE, NodeV, SelfV, TupleV, ListObj, DictObj, SetObj, IterV,
                      AbstractRaise, Unsupported, Opaque, BoundMethod, Builtin, run_all_choices, Fork)
-from .world_graph import bind_args
+from .world_graph import bind_args, self_args
 
 
 class Shape:
@@ -179,6 +179,8 @@ class QueryWorld:
                 return SnapView()
             if attr == "graph":
                 return Opaque("graph-attrs")
+            if attr in self.__dict__.get("aux_attrs", {}):
+                return self.aux_attrs[attr]
             return BoundMethod(obj, attr)
         if isinstance(obj, Opaque):
             return Opaque(obj.tag + "." + attr)
@@ -189,6 +191,7 @@ class QueryWorld:
     def store_attr(self, ip, obj, attr, v, node):
         if isinstance(obj, SelfV):
             self.effect(("self_attr_store", attr), node)
+            self.__dict__.setdefault("aux_attrs", {})[attr] = v
             return
         raise Unsupported(node, "attribute store %r.%s" % (obj, attr))
 
@@ -324,7 +327,7 @@ class QueryWorld:
                 row = (self.succ if self.directed else self.adj).entries.get(args[0])
                 return Const(row is not None and args[1] in row.entries)
             if name in self.methods:
-                return self._call_fn(ip, self.methods[name], [SelfV()] + list(args), kwargs, node)
+                return self._call_fn(ip, self.methods[name], self_args(self.methods[name]) + list(args), kwargs, node)
             if name == "subgraph":
                 return Opaque("subgraph")
             raise Unsupported(node, "call of self.%s" % name)
